@@ -34,12 +34,12 @@ def drop_prefixes(hists):
     return out
 
 
-def judge(ctx, vh, hists, files, name):
+def judge(ctx, vh, hists, files, name, stride=1):
     d = ctx.scratch(name)
     hp = os.path.join(d, "h.ndjson")
     core.write_ndjson(hp, hists)
     tp = os.path.join(d, "trace.ndjson")
-    core.run_vh(vh, ["ge-exec", "-in", hp, "-out", tp], timeout=1800)
+    core.run_vh(vh, ["ge-exec", "-in", hp, "-out", tp, "-stride", str(stride)], timeout=1800)
     raw = open(tp).readlines()
     if files:
         fp = os.path.join(d, "files.ndjson")
@@ -131,6 +131,13 @@ def run(ctx):
     ctx.extra["shipped_graph_files"] = len(files)
     findings, raw = judge(ctx, vh, hists, files, "main")
     report(ctx, hists, findings)
+    # sparse observation: the same histories with the edited application evaluated only after every 2nd / 3rd
+    # step (caches must survive several edits without an evaluation in between)
+    for stride in (2, 3):
+        sub = hists if not quick else hists[stride::3]
+        f2, raw2 = judge(ctx, vh, sub, [], "stride%d" % stride, stride=stride)
+        report(ctx, sub, f2)
+        ctx.extra["histories_stride_%d" % stride] = len(sub)
     # vacuity guards measured from the trace
     big = 0
     swaps = 0
